@@ -158,6 +158,25 @@ def r19b(ctx):
         raise AnalysisBroken('PacketLengthDecode is no longer a loop-free definition: %s' % ex)
     (ctx.ok if not bad else ctx.bad)('R19b', 'R19b:decode', 'body-length decoder equals the RFC for %d headers (all first octets x 4 second octets, partial lengths, old format)' % n if not bad else bad, dec)
     ctx.floor('R19b', n, 1000)
+    # signature subpackets: length (incl. the type octet) in the same 1/2/5 octet forms, no partial lengths
+    sp = prog.fn(CLS + '::SubpacketEncode', 0)
+    sn = [p['n'] for p in sp['params']]
+    bad = None
+    m = 0
+    try:
+        for blen in list(range(0, 400)) + [8380, 8381, 8382, 8383, 8384, 8385, 65534, 65535, 65536]:
+            for crit in (0, 1):
+                pe = PieceEval(sp, {sn[0]: 26, sn[1]: crit, sn[2]: [0x41] * blen, sn[3]: []}, prog=prog)
+                pe.run()
+                got = pe.out(sn[3])
+                want = rfc_len_encode(blen + 1) + [26 | (0x80 if crit else 0)] + [0x41] * blen
+                m += 1
+                if got != want and bad is None:
+                    bad = 'subpacket with a %d octet body starts with %s, RFC 4880 section 5.2.3.1 prescribes %s' % (
+                        blen, got[:6], want[:6])
+    except evalx.NotEvaluable as ex:
+        raise AnalysisBroken('SubpacketEncode is no longer a loop-free definition: %s' % ex)
+    (ctx.ok if not bad else ctx.bad)('R19b', 'R19b:subpacket-encode', 'subpacket header equals the RFC for %d (body length, critical) cases incl. 190/191/192 and 8382/8383/8384' % m if not bad else bad, sp)
 
 
 def r19c(ctx):
